@@ -177,6 +177,87 @@ Proof.
     + destruct (p_time p =? 0); cbn [andb negb orb] in *; [|reflexivity]. apply negb_false_iff. assumption.
     + apply Hpay; assumption.
 Qed.
+(* ---- the same equivalence for EVERY bundle value (built through the API as well as decoded): the decoder's shape was only used to know
+   that a payload-typed block carries payload data; all that is needed is that no block of type 1 carries CanonicalData::Unknown (the
+   one corner where validate - which accepts Unknown under any type, then finds no payload data - and the rule list differ) ---- *)
+Definition typed_payload (b : bundle) : bool :=
+  forallb (fun c => negb (c_type c =? 1) || match c_data c with Unknown _ => false | _ => true end) (b_canonicals b).
+Lemma payload_present_any b : typed_payload b = true -> forallb extension_valid (b_canonicals b) = true ->
+  ((match payload b with None => [VNoPayload] | Some _ => [] end) = [] <-> has_type 1 (b_canonicals b) = true).
+Proof.
+  unfold typed_payload, payload, ext_block_by_type, has_type. intros Hs Hv.
+  induction (b_canonicals b) as [|c cs IH]; cbn [find existsb forallb] in *.
+  - split; discriminate.
+  - apply andb_true_iff in Hs as [Hc Hs]. apply andb_true_iff in Hv as [Hvc Hv]. rewrite Hvc, andb_true_r.
+    unfold PAYLOAD_BLOCK. destruct (c_type c =? 1) eqn:E; cbn [orb negb] in *.
+    + apply N.eqb_eq in E. unfold extension_valid in Hvc. rewrite E in Hvc.
+      unfold PAYLOAD_BLOCK, BUNDLE_AGE_BLOCK, HOP_COUNT_BLOCK, PREVIOUS_NODE_BLOCK in Hvc.
+      destruct (c_data c); try discriminate; split; reflexivity.
+    + apply IH; assumption.
+Qed.
+Theorem validate_iff_rules_any b : typed_payload b = true -> reserved_clear b = true ->
+  (validate b = [] <-> rules b = true).
+Proof.
+  intros Hshape Hres. unfold reserved_clear in Hres. apply andb_true_iff in Hres as [Hr1 Hr2]. apply negb_true_iff in Hr1.
+  unfold validate, rules. cbv zeta.
+  destruct (block_loop _ (b_canonicals b) [] []) as [errs types] eqn:E.
+  pose proof (block_loop_spec (is_admin_record b || eid_eqb (p_src (b_primary b)) eid_none) (b_canonicals b) [] []) as HL.
+  pose proof (fun ty => block_loop_types (is_admin_record b || eid_eqb (p_src (b_primary b)) eid_none) (b_canonicals b) [] [] ty) as HT.
+  rewrite E in HL, HT. cbn [fst snd] in HL, HT.
+  set (p := b_primary b) in *. set (cs := b_canonicals b) in *. set (f := p_flags p) in *.
+  unfold is_admin_record, primary_validate, bundle_flags_validate, status_request_mask_clear in *. fold p f in HL |- *.
+  rewrite bf_admin, bf_frag, bf_nofrag, bf_rcv, bf_fwd, bf_dlv, bf_del, bf_res, Hr1 in *.
+  rewrite !eid_valid_wf. unfold DTN_VERSION, BUNDLE_AGE_BLOCK, eid_none, ENDPOINT_URI_SCHEME_DTN in *.
+  rewrite !app_nil_iff.
+  rewrite (if_nil_iff' (p_version p =? 7)), (if_nil_iff (bit_set f 1 && bit_set f 4)),
+          (if_nil_iff' (negb (bit_set f 2) || _)), !(if_nil_iff' (eid_well_formed _)), (if_nil_iff ((p_time p =? 0) && _)) by discriminate.
+  rewrite HL, HT. cbn [memN orb app]. rewrite orb_false_r, <- has_type_mem.
+  rewrite !andb_true_iff.
+  set (strict := bit_set f 2 || eid_eqb (p_src p) (DtnNone 1 0)) in *.
+  assert (Hclean : forallb (block_clean strict) cs = true <->
+            forallb block_data_ok cs = true /\ (negb strict || forallb (fun c => negb (bit_set (c_flags c) 2)) cs) = true).
+  { clear - Hr2. unfold block_clean. induction cs as [|c cs IH]; cbn [forallb].
+    - destruct strict; split; auto.
+    - apply andb_true_iff in Hr2 as [Hc Hr2]. rewrite kf_res, kf_status, extension_valid_ok, Hc. cbn [andb].
+      rewrite !andb_true_iff, (IH Hr2). destruct strict; cbn [negb orb andb]; rewrite ?negb_true_iff; [|tauto].
+      rewrite andb_true_iff, negb_true_iff. tauto. }
+  assert (Hcount : (forall ty, is_singleton_type ty = true -> (count ty (map c_type cs) + b2nat false <= 1)%nat) <->
+                   at_most_once 6 cs = true /\ at_most_once 7 cs = true /\ at_most_once 10 cs = true).
+  { unfold at_most_once, is_singleton_type, BUNDLE_AGE_BLOCK, HOP_COUNT_BLOCK, PREVIOUS_NODE_BLOCK. cbn [b2nat]. split.
+    - intros H. pose proof (H 6 eq_refl) as H6. pose proof (H 7 eq_refl) as H7. pose proof (H 10 eq_refl) as H10.
+      repeat split; apply Nat.leb_le; lia.
+    - intros (H6 & H7 & H10) ty Hty. apply Nat.leb_le in H6, H7, H10.
+      apply orb_true_iff in Hty as [Hty|Hty]; [apply orb_true_iff in Hty as [Hty|Hty]|]; apply N.eqb_eq in Hty; subst; lia. }
+  assert (Hpay : forallb block_data_ok cs = true ->
+            ((match payload b with None => [VNoPayload] | Some _ => [] end) = [] <-> has_type 1 cs = true)).
+  { intros Hd. apply payload_present_any; [assumption|]. fold cs.
+    clear - Hd. induction cs as [|c cs IH]; [reflexivity|]. cbn [forallb] in *. apply andb_true_iff in Hd as [H1 H2].
+    rewrite extension_valid_ok, H1, (IH H2). reflexivity. }
+  rewrite Hclean, Hcount.
+  split.
+  - intros ((Hv & ((_ & Hfr & Had) & Hd & Hs & Hr) ) & (((Hdo & Hst) & Hnd & _ & H6 & H7 & H10) & Hage & Hp)).
+    apply Hpay in Hp; [|assumption].
+    repeat split; try assumption.
+    + apply negb_true_iff. assumption.
+    + destruct (bit_set f 2); cbn [negb orb] in *; [|reflexivity]. rewrite !andb_true_iff in Had. rewrite !negb_true_iff in Had.
+      destruct Had as (((-> & ->) & ->) & ->). reflexivity.
+    + destruct (p_time p =? 0); cbn [andb negb orb] in *; [|reflexivity]. apply negb_false_iff. assumption.
+  - intros (((((((((((((Hv & Hfr) & Had) & Hd) & Hs) & Hr) & Hdo) & Hnd) & H6) & H7) & H10) & Hp) & Hst) & Hage).
+    apply negb_true_iff in Hfr.
+    repeat split; try assumption; try (intros ? []).
+    + destruct (bit_set f 2); cbn [negb orb] in *; [|reflexivity]. rewrite !andb_true_iff, !negb_true_iff.
+      apply negb_true_iff in Had. repeat (apply orb_false_iff in Had as [Had ?]). repeat split; assumption.
+    + destruct (p_time p =? 0); cbn [andb negb orb] in *; [|reflexivity]. apply negb_false_iff. assumption.
+    + apply Hpay; assumption.
+Qed.
+Lemma shape_typed_payload b : decodable_shape b = true -> typed_payload b = true.
+Proof.
+  unfold decodable_shape, typed_payload. intros H. apply andb_true_iff in H as [_ H]. rewrite forallb_forall in *. intros c Hin.
+  specialize (H c Hin). unfold dec_canonical in H. repeat (apply andb_true_iff in H as [H ?]).
+  destruct (c_type c =? 1) eqn:E; [|reflexivity]. cbn [negb orb]. apply N.eqb_eq in E. unfold dec_data in H0. rewrite E in H0.
+  destruct (c_data c); try reflexivity. cbn in H0. discriminate.
+Qed.
+
 
 Theorem validate_rejects_nonempty b : decodable_shape b = true -> reserved_clear b = true ->
   rules b = false -> validate b <> [].
